@@ -19,7 +19,7 @@ from __future__ import annotations
 import ast
 
 from .. import sym
-from ..model import AnalysisError, Program, attr_chain, bind_args, norm_stmt
+from ..model import AnalysisError, Program, attr_chain, bind_args, norm_stmt, walk_no_nested
 from ..paths import Const, Engine, Hooks, Opaque, Seq, State, vkey
 from ..report import Result
 from ..selftest import Variant
@@ -258,6 +258,30 @@ def check(prog: Program, tier: str) -> Result:
     if not ok:
         res.violation("R15.1", f"coax-pipe|{rv.items[1].key()[:60]}", prog.loc(fi, f.exit[2]), q, f"the coaxial pipe-wall volume is {rv.items[1].key()[:100]}")
 
+    # resistances handed to the equivalent tube: film of the annulus at the outer pipe's inner wall, wall of the OUTER pipe
+    rc_, rp_ = rv.items[2], rv.items[3]
+    k_out = Rat.atom("self.pipe.k[1]")
+    ok = isinstance(rp_, Rat) and rp_.equals(sym.log(roo / roi) / (Rat.const(2) * PI * k_out))
+    res.ob("R15.3", "concentric_tube_volumes: pipe resistance = ln(r_oo / r_oi) / (2 pi k_outer pipe)  (pipe.k = (inner, outer))", ok, prog.loc(fi, f.exit[2]))
+    if not ok:
+        res.violation("R15.3", f"coax-rpipe|{vkey(rp_)[:60]}", prog.loc(fi, f.exit[2]), q,
+                      f"the pipe resistance handed to the equivalent tube is {vkey(rp_)[:120]} instead of the wall of the outer pipe, ln(r_out_out / r_out_in) / (2 pi pipe.k[1])")
+    ok = isinstance(rc_, Rat) and rc_.equals(Rat.const(1) / (Rat.atom("self.h_f_a_in") * Rat.const(2) * PI * roi))
+    res.ob("R15.3", "concentric_tube_volumes: convective resistance = 1 / (h(annulus, outer wall) * 2 pi r_oi)", ok, prog.loc(fi, f.exit[2]))
+    if not ok:
+        res.violation("R15.3", f"coax-rconv|{vkey(rc_)[:60]}", prog.loc(fi, f.exit[2]), q,
+                      f"the convective resistance handed to the equivalent tube is {vkey(rc_)[:120]} instead of 1 / (h_f_a_in * 2 pi r_out_in)")
+    # sibling agreement: calc_fluid_pipe_resistance pairs the same radii with the same conductivity index
+    cfr = prog.method(f"{BH}.CoaxialPipe", "calc_fluid_pipe_resistance")
+    pairs = {}
+    for c in ast.walk(cfr.node):
+        if isinstance(c, ast.Call) and (attr_chain(c.func) or "").endswith("conduction_thermal_resistance_circular_pipe") and len(c.args) == 3:
+            pairs[(ast.unparse(c.args[0]), ast.unparse(c.args[1]))] = ast.unparse(c.args[2])
+    ok = pairs.get(("self.r_out_in", "self.r_out_out")) == "self.pipe.k[1]" and pairs.get(("self.r_in_in", "self.r_in_out")) == "self.pipe.k[0]"
+    res.ob("R15.3", f"CoaxialPipe.calc_fluid_pipe_resistance pairs inner radii with pipe.k[0] and outer radii with pipe.k[1] ({pairs})", ok, prog.loc(cfr, cfr.node))
+    if not ok:
+        res.violation("R15.3", f"coax-k-index|{sorted(pairs.items())}", prog.loc(cfr, cfr.node), cfr.qualname, f"the coaxial pipe conduction resistances pair radii and conductivities as {pairs}")
+
     # ---------------- to_single
     q = f"{BH}.SingleUTube.to_single"
     fi = prog.func(q)
@@ -296,10 +320,181 @@ def check(prog: Program, tier: str) -> Result:
             res.violation("R15.3", f"{cls}|to_single|{kinds}", prog.loc(fi, fi.node), q,
                           f"{cls}.to_single runs {kinds} with arguments {[vkey(a) for a in eq[0].data] if eq else None} and returns {vkey(f.exit[1])}; "
                           f"expected volumes -> equivalent tube -> grout match, returning the matched tube")
+    _check_recompute(prog, res)
+    _check_brackets(prog, res)
     return res
 
 
+def _check_brackets(prog: Program, res: Result):
+    """R15.5 (table rule): the two root searches must be given brackets that contain the root for the flows and grouts the tool
+    accepts.  Recorded domain facts: for laminar tube flow the matching pipe conductivity lies at 0.03-0.05 of the estimate
+    k_p' (turbulent: 0.3-1.5), so the bracket must reach down to k_p'/100 and up to 10 k_p'; grout conductivities of
+    practice span 0.3-3 W/m-K and the matched value moves by up to a factor ~3, so [0.01, 7.0] is required.  Wider is fine."""
+    eq = prog.func(f"{BH}.GHEDesignerBoreholeWithMultiplePipes.equivalent_single_u_tube")
+    sr = prog.func("ghedesigner.utilities.solve_root")
+    eng = Engine(prog, eq, Hooks())
+    calls = [c for c in ast.walk(eq.node) if isinstance(c, ast.Call) and attr_chain(c.func) == "solve_root"]
+    if len(calls) != 1:
+        raise AnalysisError(f"{eq.qualname}: solve_root call not found")
+    b = bind_args(sr, calls[0])
+    st = State()
+    tube = next((s_.targets[0].id for s_ in ast.walk(eq.node) if isinstance(s_, ast.Assign) and len(s_.targets) == 1 and isinstance(s_.targets[0], ast.Name)
+                 and isinstance(s_.value, ast.Call) and attr_chain(s_.value.func) == "SingleUTube"), None)
+    if tube is None:
+        raise AnalysisError(f"{eq.qualname}: equivalent tube not found")
+    st.env[tube] = Rat.atom("T")
+    for s_ in eq.node.body:
+        if isinstance(s_, ast.Assign) and len(s_.targets) == 1 and isinstance(s_.targets[0], ast.Name) and any(isinstance(x, ast.Name) and x.id == tube for x in ast.walk(s_.value)) \
+                and not isinstance(s_.value, ast.Call):
+            eng._s_Assign(s_, st)
+    K = Rat.atom("T.pipe.k")
+    lo, hi, x0 = (eng.eval(b[k_], st) if k_ in b else None for k_ in ("lower", "upper", "x"))
+
+    def ratio(v):
+        r = (v / K) if isinstance(v, Rat) else None
+        return float(r.const_value()) if r is not None and r.is_const() else None
+
+    rl, rh = ratio(lo), ratio(hi)
+    ok = rl is not None and rh is not None and 0 < rl <= 0.01 + 1e-12 and rh >= 10 - 1e-9 and isinstance(x0, Rat) and x0.equals(K)
+    res.ob("R15.5", f"pipe-conductivity search: bracket [{rl} k_p', {rh} k_p'] contains [k_p'/100, 10 k_p'], started at k_p'", ok, prog.loc(eq, calls[0]))
+    if not ok:
+        res.violation("R15.5", f"bracket-kp|{rl}|{rh}", prog.loc(eq, calls[0]), eq.qualname,
+                      f"the pipe-conductivity root search runs on [{rl} k_p', {rh} k_p']: for laminar flow the root lies at 0.03-0.05 k_p', it is then not bracketed, "
+                      "solve_root falls back to a bound and the equivalent tube keeps a conductivity that does not reproduce R_conv + R_pipe")
+    mq = f"{BH}.GHEDesignerBoreholeWithMultiplePipes.match_effective_borehole_resistance"
+    mfi = prog.func(mq)
+    calls = [c for c in ast.walk(mfi.node) if isinstance(c, ast.Call) and attr_chain(c.func) == "solve_root"]
+    if len(calls) != 1:
+        raise AnalysisError(f"{mq}: solve_root call not found")
+    b = bind_args(sr, calls[0])
+    e2 = Engine(prog, mfi, Hooks())
+    s2 = State()
+    for s_ in mfi.node.body:
+        if isinstance(s_, ast.Assign) and len(s_.targets) == 1 and isinstance(s_.targets[0], ast.Name) and isinstance(s_.value, ast.Constant):
+            e2._s_Assign(s_, s2)
+    lo, hi = (e2.eval(b[k_], s2) if k_ in b else None for k_ in ("lower", "upper"))
+    fl = float(lo.const_value()) if isinstance(lo, Rat) and lo.is_const() else None
+    fh = float(hi.const_value()) if isinstance(hi, Rat) and hi.is_const() else None
+    ok = fl is not None and fh is not None and 0 < fl <= 0.01 + 1e-12 and fh >= 7.0 - 1e-9
+    res.ob("R15.5", f"grout-conductivity search: bracket [{fl}, {fh}] W/m-K contains [0.01, 7.0]", ok, prog.loc(mfi, calls[0]))
+    if not ok:
+        res.violation("R15.5", f"bracket-kg|{fl}|{fh}", prog.loc(mfi, calls[0]), mq, f"the grout-conductivity root search runs on [{fl}, {fh}] W/m-K instead of at least [0.01, 7.0]: matched conductivities outside it are silently replaced by a bound")
+
+
+def _pyg_writers_of(attr: str):
+    """methods of the installed pygfunction pipes module that assign self.<attr>  -> (set of method names, where) or (None, why)"""
+    import glob
+
+    for pat in ("/venv/lib/python3*/site-packages/pygfunction/pipes.py", "/usr/lib/python3*/site-packages/pygfunction/pipes.py",
+                "/usr/local/lib/python3*/site-packages/pygfunction/pipes.py"):
+        for path in sorted(glob.glob(pat)):
+            try:
+                tree = ast.parse(open(path, encoding="utf-8").read())
+            except (OSError, SyntaxError):
+                continue
+            out = set()
+            for c in ast.walk(tree):
+                if isinstance(c, ast.ClassDef):
+                    for f in c.body:
+                        if isinstance(f, ast.FunctionDef):
+                            for n in ast.walk(f):
+                                if isinstance(n, (ast.Assign, ast.AugAssign)):
+                                    for t in (n.targets if isinstance(n, ast.Assign) else [n.target]):
+                                        if attr_chain(t) == f"self.{attr}":
+                                            out.add(f.name)
+            return out, path
+    return None, "pygfunction source not found"
+
+
+def _check_recompute(prog: Program, res: Result):
+    """R15.4: inside each solve's objective, the quantity that is compared depends on the parameter that is varied.
+    The effective borehole resistance is computed by pygfunction from the delta-circuit resistances self._Rd; in the installed
+    pygfunction those are assigned only by update_thermal_resistances (parsed on every run).  So after the objective writes a
+    conductivity of the tube and before it reads that tube's resistance, it must call the recomputation on the same tube:
+    calc_fluid_pipe_resistance() for R_fp (it reads pipe.k and writes R_fp - checked on the package's own code),
+    update_thermal_resistances(<tube>.R_fp) for Rb*."""
+    writers, where = _pyg_writers_of("_Rd")
+    if writers is None:
+        res.notes.append(f"R15.4: {where}; documented pygfunction >= 2.2 behaviour assumed: _Rd is assigned by update_thermal_resistances only")
+        writers = {"update_thermal_resistances"}
+    refreshers = writers - {"__init__"}
+    res.ob("R15.4", f"pygfunction model: the delta-circuit resistances behind Rb* are (re)assigned only by {sorted(refreshers)} (parsed from {where.split('site-packages/')[-1]})",
+           refreshers == {"update_thermal_resistances"}, where)
+    if refreshers != {"update_thermal_resistances"}:
+        raise AnalysisError(f"pygfunction: self._Rd is assigned by {sorted(writers)} - the recomputation rule does not know this version")
+    mq = f"{BH}.GHEDesignerBoreholeWithMultiplePipes.match_effective_borehole_resistance"
+    mfi = prog.func(mq)
+    tube = [p for p in mfi.params() if p != "self"][0]
+    objs = [f for q_, f in prog.funcs.items() if q_.startswith(mq + ".<locals>.")]
+    n_checked = 0
+    for ofi in objs:
+        # ordered events in the objective: writes of <tube>.k_g / <tube>.grout.k, refresh calls, Rb* reads on <tube>
+        ev = []
+        for n in ast.walk(ofi.node):
+            if isinstance(n, ast.Assign):
+                for t in n.targets:
+                    c = attr_chain(t) or ""
+                    if c in (f"{tube}.k_g", f"{tube}.grout.k"):
+                        ev.append((n.lineno, "write", c, n))
+            if isinstance(n, ast.Call):
+                c = attr_chain(n.func) or ""
+                if c == f"{tube}.update_thermal_resistances":
+                    arg_ok = len(n.args) == 1 and ast.unparse(n.args[0]) == f"{tube}.R_fp"
+                    ev.append((n.lineno, "refresh" if arg_ok else "refresh-wrong-arg", c, n))
+                if c == f"{tube}.calc_effective_borehole_resistance":
+                    ev.append((n.lineno, "read", c, n))
+        ev.sort(key=lambda e: e[0])
+        reads = [e for e in ev if e[1] == "read"]
+        for r in reads:
+            n_checked += 1
+            last_write = max((e[0] for e in ev if e[1] == "write" and e[0] < r[0]), default=None)
+            wrote_kg = any(e[1] == "write" and e[2].endswith(".k_g") and e[0] < r[0] for e in ev)
+            refreshed = last_write is not None and any(e[1] == "refresh" and last_write < e[0] < r[0] for e in ev)
+            ok = wrote_kg and refreshed
+            res.ob("R15.4", f"{ofi.name}: the equivalent tube's Rb* is read after its grout conductivity (k_g) was set AND its delta-circuit resistances were rebuilt from it", ok, prog.loc(ofi, r[3]))
+            if not ok:
+                res.violation("R15.4", f"stale-rb|{ofi.name}|{'no-kg-write' if not wrote_kg else 'no-refresh'}", prog.loc(ofi, r[3]), ofi.qualname,
+                              f"{ofi.name} varies the grout conductivity of {tube} and then reads calc_effective_borehole_resistance() without "
+                              f"{tube}.update_thermal_resistances({tube}.R_fp) in between: pygfunction computes Rb* from self._Rd, which only that call rebuilds, "
+                              "so the objective does not depend on the conductivity, the root is never bracketed and the solve ends on a bound (Rb* of the equivalent tube is not matched)")
+    if not n_checked:
+        raise AnalysisError(f"{mq}: no objective reads the equivalent tube's effective resistance")
+    # the solved value is applied and the circuit rebuilt before the tube is handed back
+    ev = []
+    for n in walk_no_nested(mfi.node):
+        if isinstance(n, ast.Assign):
+            for t in n.targets:
+                if (attr_chain(t) or "") == f"{tube}.k_g":
+                    ev.append((n.lineno, "write", n))
+        if isinstance(n, ast.Call) and (attr_chain(n.func) or "") == f"{tube}.update_thermal_resistances" and len(n.args) == 1 and ast.unparse(n.args[0]) == f"{tube}.R_fp":
+            ev.append((n.lineno, "refresh", n))
+    lw = max((e[0] for e in ev if e[1] == "write"), default=None)
+    ok = lw is not None and any(e[1] == "refresh" and e[0] > lw for e in ev)
+    res.ob("R15.4", "after the solve the root is written to k_g and the delta-circuit resistances are rebuilt from it before the tube is returned", ok, prog.loc(mfi, mfi.node))
+    if not ok:
+        res.violation("R15.4", "stale-rb|final", prog.loc(mfi, mfi.node), mq,
+                      f"match_effective_borehole_resistance returns {tube} with k_g set to the root but without rebuilding its delta-circuit resistances: its Rb* still belongs to the grout conductivity of the last rebuild")
+    # the pipe-conductivity objective: calc_fluid_pipe_resistance reads pipe.k and writes R_fp
+    for cls in ("SingleUTube",):
+        cf = prog.method(f"{BH}.{cls}", "calc_fluid_pipe_resistance")
+        if cf is None:
+            raise AnalysisError(f"{cls}.calc_fluid_pipe_resistance not found")
+        reads_k = any((attr_chain(n) or "") == "self.pipe.k" for n in ast.walk(cf.node) if isinstance(n, ast.Attribute))
+        writes_rfp = any(isinstance(n, ast.Assign) and any((attr_chain(t) or "") == "self.R_fp" for t in n.targets) for n in ast.walk(cf.node))
+        res.ob("R15.4", f"{cls}.calc_fluid_pipe_resistance recomputes R_fp from the current pipe.k (what the conductivity objective relies on)", reads_k and writes_rfp, prog.loc(cf, cf.node))
+        if not (reads_k and writes_rfp):
+            res.violation("R15.4", f"rfp-recompute|{cls}", prog.loc(cf, cf.node), cf.qualname, "calc_fluid_pipe_resistance no longer recomputes R_fp from pipe.k: the pipe-conductivity objective would not depend on what it varies")
+
+
 VARIANTS = [
+    Variant("pipe-conductivity bracket narrowed to one decade below the estimate (seeded C15_b)", "break",
+            [(BH, "        k_p_lower = eq_single_u_tube.pipe.k / 100.0", "        k_p_lower = eq_single_u_tube.pipe.k / 10.0")], "R15.5"),
+    Variant("pipe-conductivity bracket widened", "benign",
+            [(BH, "        k_p_lower = eq_single_u_tube.pipe.k / 100.0", "        k_p_lower = eq_single_u_tube.pipe.k / 1000.0")]),
+    Variant("coaxial: outer wall resistance with the inner pipe's conductivity (seeded C15)", "break",
+            [(BH, "        resist_pipe = log(r_out_out / r_out_in) / (TWO_PI * self.pipe.k[1])", "        resist_pipe = log(r_out_out / r_out_in) / (TWO_PI * self.pipe.k[0])")], "R15.3"),
+    Variant("grout objective without rebuilding the delta-circuit (repaired defect F14 returns)", "break",
+            [(BH, "            preliminary_new_single_u_tube.update_thermal_resistances(preliminary_new_single_u_tube.R_fp)\n            resist_bh_prime", "            resist_bh_prime")], "R15.4"),
     Variant("equivalent tube computed for three tubes", "break", [(BH, "        # Compute equivalent single U-tube geometry\n        n = 2", "        # Compute equivalent single U-tube geometry\n        n = 3")], "R15.1"),
     Variant("pipe volume forgets to subtract the fluid volume", "break", [(BH, "        vol_pipe = n * pi * (self.r_out**2) - vol_fluid", "        vol_pipe = n * pi * (self.r_out**2)")], "R15.1"),
     Variant("SingleUTube.to_single returns a fresh tube", "break",
